@@ -50,6 +50,11 @@ type SnapModule struct {
 	Outs    []int    `json:"outs"`
 	InW     []uint64 `json:"in_w"`
 	OutW    []uint64 `json:"out_w"`
+	// what a module link carries beside its weight: the recurrence flag and the trait (0 - none), per link
+	InRec  []bool `json:"in_rec,omitempty"`
+	OutRec []bool `json:"out_rec,omitempty"`
+	InTr   []int  `json:"in_trait,omitempty"`
+	OutTr  []int  `json:"out_trait,omitempty"`
 }
 
 type SnapGenome struct {
@@ -115,6 +120,8 @@ func snapGenome(g *genetics.Genome) *SnapGenome {
 			}
 			m.Ins = append(m.Ins, l.InNode.Id)
 			m.InW = append(m.InW, fbits(l.ConnectionWeight))
+			m.InRec = append(m.InRec, l.IsRecurrent)
+			m.InTr = append(m.InTr, traitIdOf(l.Trait))
 		}
 		for _, l := range cg.ControlNode.Outgoing {
 			if l == nil || l.OutNode == nil {
@@ -123,6 +130,8 @@ func snapGenome(g *genetics.Genome) *SnapGenome {
 			}
 			m.Outs = append(m.Outs, l.OutNode.Id)
 			m.OutW = append(m.OutW, fbits(l.ConnectionWeight))
+			m.OutRec = append(m.OutRec, l.IsRecurrent)
+			m.OutTr = append(m.OutTr, traitIdOf(l.Trait))
 		}
 		// the gene's own list must be its input nodes followed by its output nodes (that is how it is built); a snapshot does
 		// not carry the list further (harness code edits Ins / Outs of snapshots)
@@ -221,6 +230,9 @@ func diffGenomesOpt(a, b *SnapGenome, ignoreWeights bool) string {
 		if x.CtrlId != y.CtrlId || x.Act != y.Act || x.TraitId != y.TraitId || x.Innov != y.Innov || x.Mut != y.Mut || x.En != y.En ||
 			!intsEqual(x.Ins, y.Ins) || !intsEqual(x.Outs, y.Outs) || !u64sEqual(x.InW, y.InW) || !u64sEqual(x.OutW, y.OutW) {
 			return fmt.Sprintf("module #%d differs: %+v != %+v", i, x, y)
+		}
+		if x.linkExtras() != y.linkExtras() {
+			return fmt.Sprintf("module #%d differs in the recurrence flags / traits of its links: %+v != %+v", i, x, y)
 		}
 	}
 	return ""
@@ -472,4 +484,27 @@ func (p ptrSet) sharedWith(o ptrSet) string {
 		}
 	}
 	return ""
+}
+
+// linkExtras writes out the recurrence flags and trait ids of a module's links; lists a harness generator left out stand for
+// "not recurrent, no trait"
+func (m SnapModule) linkExtras() string {
+	out := ""
+	for j := range m.Ins {
+		out += fmt.Sprintf("i%v/%d ", j < len(m.InRec) && m.InRec[j], func() int {
+			if j < len(m.InTr) {
+				return m.InTr[j]
+			}
+			return 0
+		}())
+	}
+	for j := range m.Outs {
+		out += fmt.Sprintf("o%v/%d ", j < len(m.OutRec) && m.OutRec[j], func() int {
+			if j < len(m.OutTr) {
+				return m.OutTr[j]
+			}
+			return 0
+		}())
+	}
+	return out
 }
